@@ -1171,6 +1171,43 @@ func (rn *runner) readRaw(phase, m string, sh Shape, sql string) {
 	rn.out.Steps = append(rn.out.Steps, Step{Phase: phase, Obs: []Obs{o}})
 }
 
+// readSeries asks SHOW SERIES of one measurement once and records it as a step of its own (right after a catalogue drop)
+func (rn *runner) readSeries(phase, m string) {
+	o := Obs{Shape: "show-series", Mst: m, Rows: []string{}, Want: []string{}}
+	seen := map[string]bool{}
+	for _, x := range rn.liveRows(m, nil, false) {
+		if k := rn.h.Series[x.S].id(); !seen[k] {
+			seen[k] = true
+			o.Want = append(o.Want, k)
+		}
+	}
+	sort.Strings(o.Want)
+	ss, err := rn.s.query(rn.h.DB, "show series from "+fullMst(rn.h, m))
+	if err != nil {
+		o.Err = err.Error()
+		o.OK = len(o.Want) == 0 && benignErr(err)
+	} else {
+		for _, s := range ss {
+			for _, r := range s.Values {
+				key, _ := r[0].(string)
+				o.Rows = append(o.Rows, key)
+				for _, kv := range strings.Split(key, ",")[1:] {
+					if strings.HasPrefix(kv, "host=") {
+						o.Series = append(o.Series, kv[5:])
+					}
+				}
+			}
+		}
+		sort.Strings(o.Rows)
+		sort.Strings(o.Series)
+		o.OK = eqS(o.Rows, o.Want)
+	}
+	if !o.OK {
+		rn.out.Oracle = append(rn.out.Oracle, fmt.Sprintf("%s %s show-series: got %v (%s), want %v", phase, m, o.Rows, o.Err, o.Want))
+	}
+	rn.out.Steps = append(rn.out.Steps, Step{Phase: phase, Obs: []Obs{o}})
+}
+
 func (rn *runner) writePoints(ps []Point) error {
 	if len(ps) == 0 {
 		return nil
@@ -1575,6 +1612,7 @@ func main() {
 				m = h.Msts[0]
 			}
 			rn.readRaw("right-after-drop", m, Shape{Name: "select-all", Path: 0}, "select * from "+fullMst(h, m))
+			rn.readSeries("right-after-drop", m)
 		}
 		return err
 	})
